@@ -1813,8 +1813,10 @@ async fn run_case(spec: &CaseSpec) -> CaseOut {
         if let Act::AServe(ServeK::AsAnnounced) = act {
             if let Some(f) = r.w.pending_fetches.first() {
                 // a crafted block that must be rejected, offered to a node that has its parent
+                // (a block that does not extend the tip is kept as an unvalidated fork candidate, and a lite
+                // node does not validate what follows a ghost block: neither is a rejection)
                 frame = match must_reject.get(&f.hash) {
-                    Some(parent) => r.w.n.blockchain.read().await.is_block_indexed(*parent),
+                    Some(parent) => !spec.spv_n && r.w.n.blockchain.read().await.get_latest_block_hash() == *parent,
                     None => false,
                 };
             }
